@@ -439,6 +439,9 @@ def gen_history(rng, gen='G-exec', overcommit=None, max_ticks=None, p_bad=0.3, b
     bad_kind = rng.choice(bad_kinds or BAD_KINDS)
     idle = 0
     for i in range(n):
+        if bad_at is not None and bad_kind == 'susp-suspending' and i < bad_at and rng.random() < 0.5 and \
+                any(p.suspending_containers for p in run.ex.pools):
+            bad_at = i            # a write-out is in progress now: ask for that container's suspension
         t = gen_tick(rng, run, bad_kind if i == bad_at else None)
         cfg['ticks'].append(t)
         ent = run.step(t)
